@@ -1,4 +1,4 @@
-import SSV.Proofs.StreamResponse
+import SSV.Proofs.StreamRequest
 import SSV.Model.StreamToy
 /-
 C01 — Shadowsocks 2022 TCP tunnel delivers the exact byte stream both ways.
@@ -20,10 +20,13 @@ def plainCrypto : Crypto where
   kdf := fun psk salt => psk ++ salt
   eihEnc := fun _ _ b => b
   eihDec := fun _ _ b => b
-  pskHash := fun psk => psk
+  pskHash := fun psk => (psk ++ List.replicate IdentityHeaderLength 0).take IdentityHeaderLength
 
 theorem plainCrypto_ok : AeadOK plainCrypto :=
   ⟨by intro k n p; simp [plainCrypto], by intro k n p; simp [plainCrypto]⟩
+
+theorem plainCrypto_eih : EihOK plainCrypto :=
+  ⟨by intro k s b; rfl, by intro k s b; rfl, by intro p; simp [plainCrypto]⟩
 
 /-- **stream_roundtrip** (layer 1, every copy path): whatever sequence of `Write` / `ReadFrom` calls
 produced the chunks (any lengths, including 0 and > 0xFFFF), however the transport cut the ciphertext
@@ -129,11 +132,7 @@ variable-length header, sealed under nonce 1 in the first transport write, and w
 as ordinary chunks from nonce 2 on — so by `stream_roundtrip` (with the excess as the first
 `Write`) the server's reads return `P.drop room` followed by the later writes.
 
-Not proved in Lean (tied by the `stream` engine and its oracle only): the server-side half
-`request_observed`, i.e. `handle C scfg now (any admissible segmentation of (dial …).segs) =
-.request ⟨T.norm, P.take room, owner⟩ ⟨k, 2, [], rest⟩ …` for every configuration (it needs the
-round trip of the SOCKS address codec and of the two header layouts through `parseVarHeader`,
-`unbeN`/`be64`, and the identity-header lookup). -/
+The server-side half is `request_observed` below; `p_first` puts the two together. -/
 theorem p_first_partial (C : Crypto) (cfg : ClientCfg) (ch : DialChoice) (target : Addr) (payload : Bytes) :
     let d := dial C cfg ch target payload
     let k := C.kdf cfg.psk ch.salt
@@ -227,6 +226,50 @@ theorem response_roundtrip (C : Crypto) (hC : AeadOK C) (s : SWriter) (hs : s.w 
   · rw [hwt, hstream]; exact ⟨by simp [ROut.bytes], rfl⟩
   · rw [htn started, hstream]; exact ⟨by simp [ROut.bytes], rfl⟩
 
+
+/-- **request_observed**: for every configuration pair (`Paired`: same PSK and no identity header, or
+the client's iPSK is the server's and the server's user table maps the client's PSK hash to its
+owner — the situation after the relays stripped their headers), every request prefix, every target
+`T`, every payload `P`, every admissible draw of salt / padding / timestamp (`RndOk`, `ClockOK`), and
+every segmentation that hands the first read the fixed-length part (`hfr`: one segment at least that
+long, or `io.ReadFull` when segmented headers are allowed): `HandleStream` returns exactly
+`(T up to 4-in-6 unmapping, P.take room, owner)` and a reader positioned at nonce 2 on the bytes
+that follow the request. -/
+theorem request_observed (C : Crypto) (hC : AeadOK C) (hE : EihOK C) (cc : ClientCfg) (sc : ServerCfg) (user : String)
+    (hp : Paired C cc sc user) (ch : DialChoice) (hsalt : ch.salt.length = cc.psk.length)
+    (t : Addr) (ht : t.Valid = true) (P : Bytes) (hr : RndOk P.length ch.rnd = true)
+    (now : Int) (hts : ClockOK ch.ts now) (req later : Bytes) (tail : List Bytes)
+    (hreq : (dial C cc ch t P).segs = req :: tail) (segs : List Bytes)
+    (hfr : firstRead sc.allowSeg
+        (sc.reqPrefix.length + (if sc.psk.length = 0 then sc.ipsk.length else sc.psk.length) +
+          (if sc.psk.length = 0 then IdentityHeaderLength else 0) + TCPRequestFixedLengthHeaderLength + tagSize) segs =
+      .ok ((req ++ later).take (sc.reqPrefix.length + (if sc.psk.length = 0 then sc.ipsk.length else sc.psk.length) +
+              (if sc.psk.length = 0 then IdentityHeaderLength else 0) + TCPRequestFixedLengthHeaderLength + tagSize))
+          ((req ++ later).drop (sc.reqPrefix.length + (if sc.psk.length = 0 then sc.ipsk.length else sc.psk.length) +
+              (if sc.psk.length = 0 then IdentityHeaderLength else 0) + TCPRequestFixedLengthHeaderLength + tagSize))) :
+    handle C sc now segs =
+      .request ⟨t.norm, P.take (roomForPayload t), user⟩ ⟨C.kdf cc.psk ch.salt, 2, [], later⟩ ch.salt cc.psk :=
+  request_observed_core hC hE cc sc user hp ch hsalt t ht P hr now hts req later tail hreq segs hfr
+
+example : ∃ (C : Crypto) (cc : ClientCfg) (sc : ServerCfg) (user : String), AeadOK C ∧ EihOK C ∧ Paired C cc sc user :=
+  ⟨plainCrypto, ⟨[1], [[2]], [], [], false⟩, ⟨[], [2], [⟨"u", [1]⟩], [], [], false, false⟩, "u",
+    plainCrypto_ok, plainCrypto_eih, rfl, Or.inr ⟨rfl, rfl, rfl, by first | rfl | simp [lookupUser, plainCrypto, List.find?]⟩⟩
+
+/-- **p_first**: `P` arrives as the first bytes of the client→server stream: `P.take room` inside
+the request (`request_observed`), and the server's reads — any schedule — on the reader that
+`HandleStream` returned deliver `P.drop room` followed by everything the client writes later. -/
+theorem p_first (C : Crypto) (hC : AeadOK C) (k : Bytes) (t : Addr) (P : Bytes) (calls : List WCall) (ops : List ROp) :
+    let later := encodeChunks C k 2 (writeChunks (P.drop (roomForPayload t)) ++ calls.flatMap WCall.chunks)
+    P.take (roomForPayload t) ++ (P.drop (roomForPayload t) ++ (calls.map WCall.data).flatten) =
+      P ++ (calls.map WCall.data).flatten ∧
+    Delivers (P.drop (roomForPayload t) ++ (calls.map WCall.data).flatten) (Reader.run C ⟨k, 2, [], later⟩ ops) := by
+  intro later
+  refine ⟨by rw [← List.append_assoc, List.take_append_drop], ?_⟩
+  have hs : Sync C ⟨k, 2, [], later⟩ (writeChunks (P.drop (roomForPayload t)) ++ calls.flatMap WCall.chunks) :=
+    ⟨rfl, ValidChunks.append (writeChunks_valid _) (calls_valid calls)⟩
+  have := (run_ok hC ops _ _ hs).2
+  simpa [pending, writeChunks_flatten, calls_flatten] using this
+
 /-- the splitting loops of `Write` / `ReadFrom` lose nothing and respect the chunk limit -/
 theorem writer_chunks_valid (calls : List WCall) :
     ValidChunks (calls.flatMap WCall.chunks) ∧
@@ -246,3 +289,6 @@ end SSV.C01
 #print axioms SSV.C01.writer_chunks_valid
 #print axioms SSV.C01.p_first_partial
 #print axioms SSV.C01.response_roundtrip
+#print axioms SSV.C01.plainCrypto_eih
+#print axioms SSV.C01.request_observed
+#print axioms SSV.C01.p_first
